@@ -163,7 +163,9 @@ def grid_of(kind, z0, ztop, n):
 def convergence(chk, t, rng):
     fams = ["log_neutral", "power", "most_unstable", "most_stable", "aniso_linear"]
     grids = ["uniform", "stretched"]
-    n0s = [24] if t == "quick" else [16, 24, 40]
+    # coarse and fine pairs: a scheme may behave on coarse grids and degrade on fine ones (thresholds on the change between
+    # neighbouring nodes, accumulated rounding), so the refinement test is made at two very different resolutions
+    n0s = [24, 96] if t == "quick" else [16, 24, 40, 96, 160]
     nxy, domain = (8, 6), (400.0, 300.0)
     n = 0
     worst_ratio, worst_c = 1e9, 0.0
@@ -172,6 +174,8 @@ def convergence(chk, t, rng):
         for gk in grids:
             for n0 in n0s:
                 comps = [(1, 0), (0, 1), (1, 1), (2, -1), (3, 1)] if t == "quick" else [(1, 0), (0, 1), (1, 1), (2, -1), (3, 1), (-2, 2), (3, -2), (1, 2)]
+                if n0 >= 96:
+                    comps = comps[1:4]
                 for (mx, my) in comps:
                     kx, ky = 2 * np.pi * mx / domain[0], 2 * np.pi * my / domain[1]
                     errs, rel_dz = [], []
@@ -315,7 +319,7 @@ def main():
     chk.sample(r.emitted[0])
     chk.assumptions += [
         "claimed core: consistency of the sweep (sampling inside the layer, own thickness, top-node boundary condition, quadrature weights); convergence of a consistent one-step scheme is the standard theorem",
-        "the asymptotic statement is instantiated at n and 4n layers (n = 24; thorough 16, 24, 40) against scipy DOP853 (rtol 1e-11) on the continuous profile functions, for components resolved by the coarse grid (|T| dz^2 / Kz <= 1) with growth <= 18",
+        "the asymptotic statement is instantiated at n and 4n layers (n = 24 and 96; thorough 16, 24, 40, 96, 160) against scipy DOP853 (rtol 1e-11) on the continuous profile functions, for components resolved by the coarse grid (|T| dz^2 / Kz <= 1) with growth <= 18",
         "'about in proportion' is checked as the property's own number: the error shrinks at least 2.5 times when the thickness is quartered; 'a small multiple of the relative layer thickness' has no number: errors above 6 x max(dz/z) are reported as drift (observed maximum 3.1)",
         "ivp_solver is a module-level function, not exported API; if it disappears the check reports a machinery failure, not a violation",
     ]
